@@ -35,7 +35,7 @@ func init() {
 		Run:          Run,
 		MaxSteps:     300000,
 		QuickRuns:    5000,
-		ThoroughSecs: 600,
+		ThoroughSecs: 400,
 		YieldFiles:   []string{"service/tcp.go", "netio/stream.go"},
 		Rule: "one run = one generated relay configuration (server protocol x client protocol incl. a chained hop through a second server of the same " +
 			"manager, users/auth, initial-payload wait knobs, router default/reject) with 1-3 connections whose payload size, payload timing relative to the " +
